@@ -10,6 +10,11 @@ RULE = ("One process per configuration drawn from event loops {1,2,4,8} x submit
 
 def run(tier, seed, t0):
     cases = cl.run_cases(PID, "c01", seed, tier, 160 if tier == "thorough" else 24, case_timeout=200, jobs=6)
+    if tier == "thorough":
+        try:
+            cases += cl.asan_cases(PID, "c01", seed, 24, binname="loops")
+        except vlib.BuildError as e:
+            c = vlib.Case(3_000_000); c.engine = "asan"; c.verdict = "inconclusive"; c.sig = "harness/asan-build-failed"; c.detail = str(e)[:300]; cases.append(c)
     return vlib.finish(PID, tier, seed, "exploration", cases, rule=RULE, t0=t0, replay_builder=cl.rb_factory("c01", seed),
                        assumptions=["sampled schedules", "3 s without a single new execution while probes run = stranded (bounded-progress restatement)"], min_conclusive=2)
 
